@@ -62,16 +62,16 @@ func init() {
 	childEntries["c02race"] = func([]string) {
 		childLoop(func(req string) string {
 			var pflags uint32
-			var nrw, openFile, alloc int
-			if _, err := fmt.Sscanf(req, "%d %d %d %d", &pflags, &nrw, &openFile, &alloc); err != nil {
+			var nrw, openFile, alloc, gap int
+			if _, err := fmt.Sscanf(req, "%d %d %d %d %d", &pflags, &nrw, &openFile, &alloc, &gap); err != nil {
 				return "FAIL harness: bad request"
 			}
-			return c02RaceRun(pflags, nrw, openFile == 1, alloc == 1)
+			return c02RaceRun(pflags, nrw, openFile == 1, alloc == 1, time.Duration(gap)*time.Millisecond)
 		})
 	}
 }
 
-func c02RaceRun(pflags uint32, nrw int, openFile, alloc bool) string {
+func c02RaceRun(pflags uint32, nrw int, openFile, alloc bool, gap time.Duration) string {
 	st := &c02RaceStore{hold: 40 * time.Millisecond, data: []byte("0123456789abcdef")}
 	h := sftp.Handlers{FileGet: st, FilePut: st, FileCmd: st, FileList: st}
 	if openFile {
@@ -91,14 +91,17 @@ func c02RaceRun(pflags uint32, nrw int, openFile, alloc bool) string {
 		stream = append(stream, fr...)
 	}
 	add("OPEN", fxpOpen, 1000, rawOpen(1000, "/f", pflags, 0, nil))
-	// the OPEN goes first; the requests on its handle follow 10 ms later, while the handler's open call is being held (not at
-	// the very moment the request object is being set up: that moment has a data race of its own, recorded as F27)
-	in.cli.SetWriteDeadline(time.Now().Add(5 * time.Second))
-	if _, err := in.cli.Write(stream); err != nil {
-		return "FAIL harness: cannot write the requests: " + err.Error()
+	// the OPEN goes first; the requests on its handle follow gap later, while the handler's open call is being held - or, with
+	// no gap, in the same Write as the OPEN: they then reach the request object at the very moment it is being set up (the
+	// moment of the data race on Request.Method, F27, repaired)
+	if gap > 0 {
+		in.cli.SetWriteDeadline(time.Now().Add(5 * time.Second))
+		if _, err := in.cli.Write(stream); err != nil {
+			return "FAIL harness: cannot write the requests: " + err.Error()
+		}
+		stream = nil
+		time.Sleep(gap)
 	}
-	stream = nil
-	time.Sleep(10 * time.Millisecond)
 	for k := 0; k < nrw; k++ {
 		id := uint32(2000 + k)
 		if k%2 == 0 {
@@ -144,7 +147,8 @@ func c02OpenRaces(c *Ctx) {
 			for _, nrw := range []int{1, 2, 6} {
 				for _, openFile := range []int{0, 1} {
 					alloc := (rep + nrw) % 2
-					cn := c.Case("openrace", kvi("rep", rep), kvx("pflags", uint64(pflags)), kvi("nrw", nrw), kvi("openfile", openFile), kvi("alloc", alloc))
+					gap := 10 * (1 - rep%2) // ms; odd repetitions: everything in one Write
+					cn := c.Case("openrace", kvi("rep", rep), kvx("pflags", uint64(pflags)), kvi("nrw", nrw), kvi("openfile", openFile), kvi("alloc", alloc), kvi("gap", gap))
 					c.NT(cn)
 					c.Stat("cases_openrace")
 					if ch == nil {
@@ -154,7 +158,7 @@ func c02OpenRaces(c *Ctx) {
 							return
 						}
 					}
-					ans, alive := ch.ask(fmt.Sprintf("%d %d %d %d", pflags, nrw, openFile, alloc), 30*time.Second)
+					ans, alive := ch.ask(fmt.Sprintf("%d %d %d %d %d", pflags, nrw, openFile, alloc, gap), 30*time.Second)
 					if !alive {
 						ch.kill()
 						ch = nil
